@@ -13,7 +13,7 @@ RULE = ("The host machine (call -> return(value | error); panic and process deat
         "Return. distinct_nontrivial = distinct source texts executed.")
 
 # (no astronomically large integer among the operand kinds: sizes of that magnitude are outside the guarantee)
-VARS = ["vi", "vz", "vneg", "vf", "vs", "ve", "vb", "vn", "vl", "vel", "vll", "vm", "vc", "vg", "vfn", "vfv", "vmo", "vp", "vnp", "vst", "vtl", "vtm", "vcc", "vsi", "vsf"]
+VARS = ["vi", "vz", "vneg", "vf", "vs", "ve", "vb", "vn", "vl", "vel", "vll", "vm", "vc", "vg", "vfn", "vfv", "vmo", "vp", "vnp", "vst", "vtl", "vtm", "vcc", "vsi", "vsf", "vtmi", "vtmf", "vtls", "vnilm", "vnill", "vps"]
 
 T2 = []
 def t2(i, pre, mid, post): T2.append({"id": i, "pre": pre, "mid": mid, "post": post})
@@ -27,9 +27,16 @@ t2("go", "go ", "(", ")"); t2("go-spread", "go ", "(", "...)"); t2("defer", "fun
 t2("typed-list", "[]int64{", ", ", "}"); t2("typed-map", "map[string]int64{", ": ", "}"); t2("let-map-item", "a, b = ", "[", "]"); t2("chan-stmt", "a, b = <-", "\n", ""); t2("multi-assign", "a, b = ", ", ", "")
 t2("var-unpack", "var a, b, c = ", ", ", ""); t2("str-mul", "", " * ", ""); t2("member-call", "", ".", "()"); t2("new-call", "", "(", ")()"); t2("len-plus", "len(", ") + ", "")
 t2("throw-in-try", "try {\n throw ", "\n} catch e {\n ", "\n}"); t2("cfor", "for i = ", "; i < ", "; i++ {\n break\n}"); t2("while", "for ", " {\n ", "\n break\n}")
+# containers changed while they are being iterated
+t2("forin-map-del", 'm = {"a": 1, "b": 2, "c": 3}\nfor k, v in m {\n delete(m, "a")\n delete(m, "b")\n delete(m, "c")\n x = [v, ', ']\n y = ', '\n}')
+t2("forin-map-del-use", 'm = {"a": 1, "b": 2, "c": 3}\nr = ', '\nfor k, v in m {\n delete(m, "a")\n delete(m, "b")\n delete(m, "c")\n r += v\n r = r ', ' v\n}')
+t2("forin-slice-shrink", 'l = [1, 2, 3]\nfor v in l {\n l = l[0:1]\n x = [v, ', ', ', ']\n}')
+t2("forin-over-del", 'for k, v in ', ' {\n delete(', ', k)\n x = [k, v]\n}')
 t2("make-type", "make(type X, ", ")\nmake(X)\n", ""); t2("spread-fv", "vfv(", ", ", "...)"); t2("fn-arg-go", "vg(", ") + vg(", ")"); t2("addr-deref", "*(&", ") + ", "")
 
-DEGENERATE = ["var a =", "var a, b =", "a, b =", "= 1", "return", "return ,", "f(...)", "f(", "vfn(...)", "vfv(...)", "vg(...)", "go vfn(...)", "defer vfn(...)", "{1:}", "{:1}", "[,]", "[1,]", "a[]", "a[:]", "vl[:]", "vl[::]",
+DEGENERATE = ['m = {"a": 1, "b": 2, "c": 3}\nfor k, v in m {\n delete(m, "a")\n delete(m, "b")\n delete(m, "c")\n x = [v]\n}', 'm = {"a": 1, "b": 2}\nfor k, v in m {\n m = {}\n x = {"z": v}\n}',
+              'm = {"a": 1, "b": 2, "c": 3}\nf = func(x) { return x }\nfor k, v in m {\n delete(m, "a")\n delete(m, "b")\n delete(m, "c")\n f(v)\n}', "vtmi.x = \"a\"", "vtmi.x", "vtmf.x = true", "vnilm.k = 1", "vnilm[\"k\"] = 1", "vnill[0] = 1", "vnill += 1",
+              "var a =", "var a, b =", "a, b =", "= 1", "return", "return ,", "f(...)", "f(", "vfn(...)", "vfv(...)", "vg(...)", "go vfn(...)", "defer vfn(...)", "{1:}", "{:1}", "[,]", "[1,]", "a[]", "a[:]", "vl[:]", "vl[::]",
               "for { }", "for ;; { break }", "for in x { }", "for a, b, c in x { }", "switch { }", "switch 1 { case: }", "switch 1 { default: default: }", "if { }", "else { }", "try { } catch", "try { }", "throw", "module { }",
               "func() { }()", "func(a, a) { return a }(1, 2)", "func(a...) { return a }()", "func f(f) { return f(f) }\nf(f)", "make()", "make(int64, 1, 2, 3)", "new()", "new(nosuchtype)", "make(nosuch.type)", "a = 1\nmake(a.b)",
               "make([]nosuch)", "make(chan nosuch, 1)", "make(map[nosuch]int64)", "make(struct { A nosuch })", "make(type T)", "len()", "delete()", "delete(vm)", "close()", "close(vm)", "import()", "import(1)", "import(\"nosuch\")",
